@@ -87,6 +87,8 @@ def obligations(tier):
         short = n.split("_", 1)[1].replace("cbstr_", "")
         if tier == "thorough" or short in QUICK_D1:
             for sk in ("list1", "list2", "map1", "tag1", "mapbig"):
+                if sk == "list2" and tier == "quick" and short not in QUICK_D1[:16]:
+                    continue  # two-element arrays are the costliest skeleton: 16 central classes in the quick tier, all in thorough
                 obs.append(Ob(f"{sk}_{n}", "E1", "h_fuzz", {"idx": i, "skel": sk}, 900, f"skeleton {sk}: children any scalar by selector" if sk != "mapbig" else "one-entry map, unregistered integer / text / bytes key, value any unsigned integer in (2^20, 2^64): no exception escapes and no buffer of that size is requested", weight=60 if sk != "mapbig" else 10))
     return obs
 
